@@ -1,7 +1,26 @@
-/- Model driver for C12: the Float instantiation of the hand model of `crr_tree_val` / `crr_tree_val_avg`. -/
+/- Model driver for C12: the Float instantiation of the hand models of `crr_tree_val` / `crr_tree_val_avg`
+(Model/C12.lean), of the finite-difference / PSOR pricers (Model/C12FD.lean) and the generated closed-form parts of
+`baw_value` (Gen/BAWF.lean). -/
 import FinVerif.Driver.Util
 import FinVerif.Model.C12
-open FinVerif FinVerif.Driver FinVerif.Model.C12
+import FinVerif.Model.C12FD
+import FinVerif.Gen.BAWF
+open FinVerif FinVerif.Driver FinVerif.Model.C12 FinVerif.Model.C12FD
+
+def mkNodes : List Float → List Float → List Float → List Float → List (Node Float)
+  | x :: xs, r :: rs, m :: ms, v :: vs => ⟨x, r, m, v⟩ :: mkNodes xs rs ms vs
+  | _, _, _, _ => []
+
+def mkTris : List Float → List (Tri Float)
+  | a :: b :: c :: rest => ⟨a, b, c⟩ :: mkTris rest
+  | _ => []
+
+def showTris (l : List (Tri Float)) : String :=
+  showFloats (l.foldr (fun t acc => t.a :: t.b :: t.c :: acc) [])
+
+def showOptFloats : Option (List Float) → String
+  | some xs => showFloats xs
+  | none => "E:ValueError"
 
 def step (t : List String) : String :=
   match t with
@@ -13,6 +32,57 @@ def step (t : List String) : String :=
     match floats? [s, r, q, v, tt, k], n.toNat?, int? ty with
     | some [s, r, q, v, tt, k], some n, some ty => showFloat (crrTreeValAvg s r q v n tt ty k)
     | _, _, _ => "bad-op"
+  -- calculate_fd_matrix(x, r, mu, var, dt, theta, wind=0):  fdmat n dt theta x[n] r[n] mu[n] var[n]
+  | "fdmat" :: n :: dt :: theta :: rest =>
+    match n.toNat?, floats? [dt, theta], floats? rest with
+    | some n, some [dt, theta], some fs =>
+      if fs.length != 4 * n then "bad-op" else
+      let nodes := mkNodes (fs.take n) ((fs.drop n).take n) ((fs.drop (2 * n)).take n) (fs.drop (3 * n))
+      showTris (calcFdMatrix nodes dt theta)
+    | _, _, _ => "bad-op"
+  -- fd_roll_backwards(res, theta, Ai, Ae):  fdstep n expl impl ae[3n] ai[3n] res[n]
+  | "fdstep" :: n :: ex :: im :: rest =>
+    match n.toNat?, floats? rest with
+    | some n, some fs =>
+      if fs.length != 7 * n then "bad-op" else
+      showOptFloats (thetaStep (ex == "1") (im == "1") (mkTris (fs.take (3 * n))) (mkTris ((fs.drop (3 * n)).take (3 * n)))
+        (fs.drop (6 * n)))
+    | _, _ => "bad-op"
+  -- black_scholes_fd:  fd spot vol t strike r q optType numTimeSteps numSamples numStd theta
+  | ["fd", s, v, tt, k, r, q, ty, nts, ns, nstd, th] =>
+    match floats? [s, v, tt, k, r, q, nstd, th], int? ty, nts.toNat?, ns.toNat? with
+    | some [s, v, tt, k, r, q, nstd, th], some ty, some nts, some ns =>
+      match blackScholesFd s v tt k r q ty nts ns nstd th with
+      | some x => showFloat x
+      | none => "E:ValueError"
+    | _, _, _, _ => "bad-op"
+  -- PSOR(Ai, omega, initial_value, z):  sor n omega acc ai[3n] z[n] init[n]   -> values then the number of sweeps
+  | "sor" :: n :: om :: acc :: rest =>
+    match n.toNat?, floats? [om, acc], floats? rest with
+    | some n, some [om, acc], some fs =>
+      if fs.length != 5 * n then "bad-op" else
+      let (res, k) := sorLoop om acc (mkTris (fs.take (3 * n))) ((fs.drop (3 * n)).take n) 1000000 1.0 (fs.drop (4 * n)) 0
+      showFloats res ++ " " ++ toString k
+    | _, _, _ => "bad-op"
+  -- black_scholes_fd_PSOR:  psor spot vol t strike r q optType numTimeSteps numSamples numStd theta
+  | ["psor", s, v, tt, k, r, q, ty, nts, ns, nstd, th] =>
+    match floats? [s, v, tt, k, r, q, nstd, th], int? ty, nts.toNat?, ns.toNat? with
+    | some [s, v, tt, k, r, q, nstd, th], some ty, some nts, some ns =>
+      showFloat (blackScholesFdPSOR s v tt k r q ty nts ns nstd th 1000000)
+    | _, _, _, _ => "bad-op"
+  -- generated closed-form parts of Barone-Adesi–Whaley:  fcall|fput si t k r q v ;  baw s t k r q v phi sstar
+  | ["fcall", si, tt, k, r, q, v] =>
+    match floats? [si, tt, k, r, q, v] with
+    | some [si, tt, k, r, q, v] => showExcept showFloat (FinVerif.Gen.BAWF.fcall si tt k r q v)
+    | _ => "bad-op"
+  | ["fput", si, tt, k, r, q, v] =>
+    match floats? [si, tt, k, r, q, v] with
+    | some [si, tt, k, r, q, v] => showExcept showFloat (FinVerif.Gen.BAWF.fput si tt k r q v)
+    | _ => "bad-op"
+  | ["baw", s, tt, k, r, q, v, phi, sstar] =>
+    match floats? [s, tt, k, r, q, v, sstar], int? phi with
+    | some [s, tt, k, r, q, v, sstar], some phi => showExcept showFloat (FinVerif.Gen.BAWF.baw_value s tt k r q v phi sstar)
+    | _, _ => "bad-op"
   | _ => "bad-op"
 
 def main : IO Unit := loop step
